@@ -59,7 +59,9 @@ def stepTree (t : TS) (cmd : String) (a : List (String × String)) : Option TS :
     let f ← (if fs == "none" then some noFilter else do
       let seed ← fs.toNat?
       let once ← (splitList "," ((arg a "once").getD "")).mapM bytesOfHex
-      pure (seededTreeFilter (UInt64.ofNat seed) once))
+      pure (fun e => match seededTreeFilter (UInt64.ofNat seed) once e with
+        | .replace .value v => .replace (separate t.blobTh ({ e with vt := .value, val := v } : E)).vt v
+        | r => r))
     let cuts ← (arg a "cuts").bind parseCuts
     t.mergeCommit ids dest wm f cuts
   | "move" => do
@@ -77,7 +79,7 @@ def stepTree (t : TS) (cmd : String) (a : List (String × String)) : Option TS :
     let fcuts ← (arg a "fcuts").bind parseCuts
     let items ← (arg a "items").bind parseEntries
     let cuts ← (arg a "cuts").bind parseCuts
-    let t1 ← (t.rotate mem).flushSealed 0 fcuts
+    let t1 ← (t.rotate mem).flushSealed 0 fcuts false
     t1.ingestCommit items cuts
   | "reopen" => t.reopen
   | _ => none
